@@ -1702,7 +1702,9 @@ class SequenceOfAndSetOfBase(base.ConstructedAsn1Type):
             raise ValueError(sys.exc_info()[1])
 
     def reverse(self):
-        self._componentValues.reverse()
+        self._componentValues = dict(
+            enumerate([self._componentValues[idx]
+                       for idx in sorted(self._componentValues, reverse=True)]))
 
     def sort(self, key=None, reverse=False):
         self._componentValues = dict(
